@@ -243,7 +243,8 @@ theorem unshiftAll_error (b : Nat) : ∀ (vs kids : List Prpty) (e : Err), unshi
     cases h1 : unshiftAll b rest kids with
     | error e1 =>
       simp only [h1] at h
-      cases h
+      have he : e1 = e := by injection h
+      subst he
       rcases ih kids e1 h1 with ⟨k, he, hk, hp⟩
       exact ⟨k, he, by simp [hk], hp⟩
     | ok k1 =>
@@ -372,5 +373,662 @@ theorem expand_no_bases (st : Store) (f : Nat) (sc : Schema) (h : sc.bases = [])
   cases f with
   | zero => rfl
   | succ f => simp [expand_succ, h]
+
+
+/-! ### The invariant of partially processed stores -/
+
+section Main
+variable (st0 : Store)
+
+/-- the fully expanded version of a schema of the original store -/
+def full (sc : Schema) : Schema := { sc with kids := expand st0 st0.length sc }
+
+/-- the expansion of the type named `b` (empty if undefined) -/
+def expOf (b : Nat) : List Prpty :=
+  match st0.get? b with
+  | some ut => expand st0 st0.length ut
+  | none => []
+
+/-- the inherited part for a list of bases -/
+def inh (bs : List Nat) : List Prpty := bs.flatMap fun b => (expOf st0 b).map (mark b)
+
+/-- the pure effect of inheriting from the bases `rs` (in processing order) on a property list -/
+def unshiftMany : List Nat → List Prpty → Except Err (List Prpty)
+  | [], kids => .ok kids
+  | b :: rest, kids =>
+    match unshiftAll b (expOf st0 b) kids with
+    | .error e => .error e
+    | .ok k => unshiftMany rest k
+
+/-- every type is either still original or fully expanded -/
+def Good (st : Store) : Prop := ∀ n, st.get? n = st0.get? n ∨ st.get? n = (st0.get? n).map (full st0)
+
+/-- the type named `n` is fully expanded (vacuous for undefined names) -/
+def Done (st : Store) (n : Nat) : Prop := st.get? n = (st0.get? n).map (full st0)
+
+/-- what the proofs use of well-formedness -/
+structure WFS : Prop where
+  obj : ∀ n sc, st0.get? n = some sc → sc.isObject = false → sc.bases = []
+  bases : ∀ n sc, st0.get? n = some sc → ∀ b ∈ sc.bases, ∃ ut, st0.get? b = some ut ∧ ut.isObject = true
+  nbases : ∀ n sc, st0.get? n = some sc → sc.bases.length ≤ st0.length
+  acyclic : ∀ n sc, st0.get? n = some sc → depthOk st0 st0.length n = true
+  once : ∀ n sc, st0.get? n = some sc → (keys (expand st0 st0.length sc)).Nodup
+
+@[simp] theorem inh_nil : inh st0 [] = [] := rfl
+theorem inh_append (l1 l2 : List Nat) : inh st0 (l1 ++ l2) = inh st0 l1 ++ inh st0 l2 := by simp [inh]
+theorem inh_single (b : Nat) : inh st0 [b] = (expOf st0 b).map (mark b) := by simp [inh]
+
+theorem mem_inh_marked {bs : List Nat} {p : Prpty} (h : p ∈ inh st0 bs) : ∃ b ∈ bs, p.from_ = some b := by
+  unfold inh at h
+  rcases List.mem_flatMap.mp h with ⟨b, hb, hp⟩
+  rcases List.mem_map.mp hp with ⟨v, _, rfl⟩
+  exact ⟨b, hb, rfl⟩
+
+theorem expand_succ_inh (sc : Schema) : expand st0 (st0.length + 1) sc = inh st0 sc.bases ++ sc.kids := by
+  rw [expand_succ]
+  congr 1
+  apply flatMap_congr'
+  intro b _
+  unfold expOf
+  cases st0.get? b <;> rfl
+
+variable {st0}
+
+theorem expand_unfold (h : WFS st0) {n : Nat} {sc0 : Schema} (hg : st0.get? n = some sc0) :
+    expand st0 st0.length sc0 = inh st0 sc0.bases ++ sc0.kids := by
+  obtain ⟨l, hl⟩ : ∃ l, st0.length = l + 1 := ⟨st0.length - 1, by have := length_pos_of_get? hg; omega⟩
+  have hac := h.acyclic n sc0 hg
+  rw [hl, depthOk_succ hg, List.all_eq_true] at hac
+  have e1 : expand st0 (st0.length + 1) sc0 = expand st0 st0.length sc0 := by
+    rw [hl]; exact expand_stable st0 l sc0 hac (l + 1) (by omega)
+  rw [← e1, expand_succ_inh]
+
+theorem full_eq (h : WFS st0) {n : Nat} {sc0 : Schema} (hg : st0.get? n = some sc0) :
+    full st0 sc0 = { sc0 with kids := inh st0 sc0.bases ++ sc0.kids } := by
+  unfold full; rw [expand_unfold h hg]
+
+theorem good_get {st : Store} (hgood : Good st0 st) {b : Nat} {ut0 : Schema} (hg : st0.get? b = some ut0) :
+    ∃ ut, st.get? b = some ut ∧ (ut = ut0 ∨ ut = full st0 ut0) := by
+  rcases hgood b with h | h
+  · exact ⟨ut0, by rw [h, hg], Or.inl rfl⟩
+  · exact ⟨full st0 ut0, by rw [h, hg]; rfl, Or.inr rfl⟩
+
+theorem good_none {st : Store} (hgood : Good st0 st) {b : Nat} : st.get? b = none ↔ st0.get? b = none := by
+  rcases hgood b with h | h <;> rw [h] <;> simp
+
+theorem good_set {st : Store} (hgood : Good st0 st) {b : Nat} {ut0 : Schema} (hg : st0.get? b = some ut0) :
+    Good st0 (st.set b (full st0 ut0)) := by
+  intro n
+  rw [get?_set]
+  by_cases hn : n = b
+  · subst hn
+    rcases good_get hgood hg with ⟨ut, hut, _⟩
+    right; simp [hut, hg]
+  · simp only [hn, if_false]; exact hgood n
+
+theorem done_set_self {st : Store} (hgood : Good st0 st) {b : Nat} {ut0 : Schema} (hg : st0.get? b = some ut0) :
+    Done st0 (st.set b (full st0 ut0)) b := by
+  unfold Done
+  rcases good_get hgood hg with ⟨ut, hut, _⟩
+  rw [get?_set]; simp [hut, hg]
+
+theorem done_set_other {st : Store} {b n : Nat} (v : Schema) (hn : n ≠ b) (hd : Done st0 st n) :
+    Done st0 (st.set b v) n := by
+  unfold Done at hd ⊢
+  rw [get?_set]; simp only [hn, if_false]; exact hd
+
+theorem done_set {st : Store} (hgood : Good st0 st) {b : Nat} {ut0 : Schema} (hg : st0.get? b = some ut0)
+    {n : Nat} (hd : Done st0 st n) : Done st0 (st.set b (full st0 ut0)) n := by
+  by_cases hn : n = b
+  · subst hn; exact done_set_self hgood hg
+  · exact done_set_other _ hn hd
+
+variable (st0)
+
+/-- post-condition shared by `process`, `inheritAll`, `inherit` -/
+structure Post (st : Store) (memo : List Nat) (st' : Store) (memo' : List Nat) : Prop where
+  good : Good st0 st'
+  mono : ∀ n, Done st0 st n → Done st0 st' n
+  memo : ∀ n ∈ memo', n ∈ memo ∨ Done st0 st' n
+
+/-- the memo entries that matter at depth `d` are expanded (deeper ones may be pending) -/
+def MemoOK (d : Nat) (st : Store) (memo : List Nat) : Prop :=
+  ∀ n ∈ memo, Done st0 st n ∨ depthOk st0 d n = false
+
+def cost (L : Nat) : Nat → Nat
+  | 0 => 1
+  | d + 1 => cost L d + (L + 2)
+
+variable {st0}
+
+theorem Post.refl {st : Store} {memo : List Nat} (hgood : Good st0 st) : Post st0 st memo st memo :=
+  ⟨hgood, fun _ h => h, fun _ h => Or.inl h⟩
+
+theorem Post.trans {st st1 st2 : Store} {memo memo1 memo2 : List Nat}
+    (h1 : Post st0 st memo st1 memo1) (h2 : Post st0 st1 memo1 st2 memo2) : Post st0 st memo st2 memo2 := by
+  refine ⟨h2.good, fun n h => h2.mono n (h1.mono n h), ?_⟩
+  intro n hn
+  rcases h2.memo n hn with h | h
+  · rcases h1.memo n h with h' | h'
+    · exact Or.inl h'
+    · exact Or.inr (h2.mono n h')
+  · exact Or.inr h
+
+theorem MemoOK.post {d : Nat} {st st' : Store} {memo memo' : List Nat} (hm : MemoOK st0 d st memo)
+    (hp : Post st0 st memo st' memo') : MemoOK st0 d st' memo' := by
+  intro n hn
+  rcases hp.memo n hn with h | h
+  · rcases hm n h with h' | h'
+    · exact Or.inl (hp.mono n h')
+    · exact Or.inr h'
+  · exact Or.inl h
+
+theorem cost_mono (L : Nat) {m d : Nat} (h : m ≤ d) : cost L m ≤ cost L d := by
+  induction h with
+  | refl => exact Nat.le_refl _
+  | step _ ih => simp only [cost]; omega
+
+theorem cost_eq (L d : Nat) : cost L d = d * (L + 2) + 1 := by
+  induction d with
+  | zero => simp [cost]
+  | succ d ih => simp only [cost, ih, Nat.succ_mul]; omega
+
+/-! ### The pure effect on the property list -/
+
+theorem unshiftMany_fresh : ∀ (rs : List Nat) (kids : List Prpty), (keys (inh st0 rs.reverse ++ kids)).Nodup →
+    unshiftMany st0 rs kids = .ok (inh st0 rs.reverse ++ kids) := by
+  intro rs
+  induction rs with
+  | nil => intro kids _; simp [unshiftMany]
+  | cons b rest ih =>
+    intro kids hnd
+    rw [List.reverse_cons, inh_append, inh_single, List.append_assoc] at hnd ⊢
+    have hnd2 := hnd
+    rw [keys_append, List.nodup_append] at hnd2
+    have hnd3 := hnd2.2.1
+    rw [keys_append, keys_map_mark, List.nodup_append] at hnd3
+    have hu := unshiftAll_fresh b (expOf st0 b) kids hnd3.1 (fun k hk hk' => hnd3.2.2 k hk k hk' rfl)
+    simp only [unshiftMany, hu]
+    exact ih _ hnd
+
+theorem unshiftMany_done : ∀ (rs : List Nat) (kids : List Prpty),
+    (∀ b ∈ rs, ∀ v ∈ expOf st0 b, ∃ p, kids.find? (·.key == v.key) = some p ∧ p.from_.isSome = true) →
+    unshiftMany st0 rs kids = .ok kids := by
+  intro rs
+  induction rs with
+  | nil => intro kids _; rfl
+  | cons b rest ih =>
+    intro kids h
+    have hu := unshiftAll_done b (expOf st0 b) kids (h b (by simp))
+    simp only [unshiftMany, hu]
+    exact ih kids (fun b' hb' => h b' (by simp [hb']))
+
+theorem done_state (bs : List Nat) (own : List Prpty) :
+    ∀ b ∈ bs, ∀ v ∈ expOf st0 b,
+      ∃ p, (inh st0 bs ++ own).find? (·.key == v.key) = some p ∧ p.from_.isSome = true := by
+  intro b hb v hv
+  have hmem : mark b v ∈ inh st0 bs :=
+    List.mem_flatMap.mpr ⟨b, hb, List.mem_map.mpr ⟨v, hv, rfl⟩⟩
+  rcases find?_append_left_mem (·.key == v.key) (inh st0 bs) own (mark b v) hmem (by simp [mark]) with ⟨p, hp, hpm⟩
+  rcases mem_inh_marked st0 hpm with ⟨b', _, hb'⟩
+  exact ⟨p, hp, by simp [hb']⟩
+
+/-! ### The main induction -/
+
+variable (st0)
+
+/-- `process` on an object schema whose bases are in the store, at depth `d`: from the original own properties
+    (fresh) or from the already expanded list (re-processing) the result is the expansion -/
+def MainStmt (d : Nat) : Prop :=
+  ∀ (fuel : Nat) (st : Store) (memo : List Nat) (sc : Schema) (own : List Prpty),
+    Good st0 st → MemoOK st0 d st memo → sc.isObject = true →
+    (∀ b ∈ sc.bases, depthOk st0 d b = true ∧ ∃ ut, st0.get? b = some ut ∧ ut.isObject = true) →
+    sc.bases.length ≤ st0.length → cost st0.length d ≤ fuel →
+    ((sc.kids = own ∧ (keys (inh st0 sc.bases ++ own)).Nodup) ∨ sc.kids = inh st0 sc.bases ++ own) →
+    ∃ st' memo', process fuel st memo sc = .ok (st', memo', { sc with kids := inh st0 sc.bases ++ own }) ∧
+      Post st0 st memo st' memo'
+
+variable {st0}
+
+theorem inherit_step (h : WFS st0) (d : Nat) (ih : ∀ m, m ≤ d → MainStmt st0 m)
+    (fuel : Nat) (st : Store) (memo : List Nat) (b : Nat) (ut0 : Schema)
+    (hgood : Good st0 st) (hmemo : MemoOK st0 (d + 1) st memo)
+    (hb : depthOk st0 (d + 1) b = true) (hg : st0.get? b = some ut0) (hobj : ut0.isObject = true)
+    (hfuel : cost st0.length d + 1 ≤ fuel) :
+    ∃ st' memo', Post st0 st memo st' memo' ∧
+      ∀ sc, inherit fuel st memo sc b =
+        match unshiftAll b (expOf st0 b) sc.kids with
+        | .error e => .error e
+        | .ok k => .ok (st', memo', { sc with kids := k }) := by
+  obtain ⟨f, rfl⟩ : ∃ f, fuel = f + 1 := ⟨fuel - 1, by omega⟩
+  rcases good_get hgood hg with ⟨ut, hut, hcase⟩
+  have hutobj : ut.isObject = true := by rcases hcase with rfl | rfl <;> simp [full, hobj]
+  have hexp : expOf st0 b = expand st0 st0.length ut0 := by simp [expOf, hg]
+  by_cases hm : b ∈ memo
+  · have hdone : Done st0 st b := (hmemo b hm).resolve_right (by simp [hb])
+    have hfull : ut = full st0 ut0 := by
+      unfold Done at hdone; rw [hut, hg] at hdone; simpa using hdone
+    refine ⟨st, memo, Post.refl hgood, ?_⟩
+    intro sc
+    rw [inherit]
+    cases hu : unshiftAll b (expOf st0 b) sc.kids <;> rw [hexp] at hu <;>
+      simp [hut, hobj, hm, hfull, full, hu]
+  · rcases depthOk_min st0 b (d + 1) hb with ⟨m, hmlt, hm1, hm0⟩
+    have hbases : ∀ b' ∈ ut0.bases, depthOk st0 m b' = true := by
+      rw [depthOk_succ hg, List.all_eq_true] at hm1; exact hm1
+    have hutb : ut.bases = ut0.bases := by rcases hcase with rfl | rfl <;> rfl
+    have hmemo' : MemoOK st0 m st (b :: memo) := by
+      intro n hn
+      rcases List.mem_cons.mp hn with rfl | hn
+      · exact Or.inr hm0
+      · rcases hmemo n hn with h' | h'
+        · exact Or.inl h'
+        · right
+          cases hd : depthOk st0 m n with
+          | false => rfl
+          | true => rw [depthOk_mono st0 (by omega) n hd] at h'; exact absurd h' (by simp)
+    have hstate : (ut.kids = ut0.kids ∧ (keys (inh st0 ut.bases ++ ut0.kids)).Nodup) ∨
+        ut.kids = inh st0 ut.bases ++ ut0.kids := by
+      rcases hcase with rfl | rfl
+      · left; refine ⟨rfl, ?_⟩
+        rw [← expand_unfold h hg]; exact h.once b _ hg
+      · right; show expand st0 st0.length ut0 = _
+        exact expand_unfold h hg
+    rcases ih m (by omega) f st (b :: memo) ut ut0.kids hgood hmemo' hutobj
+      (by rw [hutb]; exact fun b' hb' => ⟨hbases b' hb', h.bases b ut0 hg b' hb'⟩)
+      (by rw [hutb]; exact h.nbases b ut0 hg)
+      (by have := cost_mono st0.length (show m ≤ d by omega); omega)
+      hstate with ⟨st1, memo1, hproc, hpost⟩
+    have hres : ({ ut with kids := inh st0 ut.bases ++ ut0.kids } : Schema) = full st0 ut0 := by
+      rw [full_eq h hg]; rcases hcase with rfl | rfl <;> rfl
+    rw [hres] at hproc
+    refine ⟨st1.set b (full st0 ut0), memo1, ⟨good_set hpost.good hg, ?_, ?_⟩, ?_⟩
+    · exact fun n hn => done_set hpost.good hg (hpost.mono n hn)
+    · intro n hn
+      rcases hpost.memo n hn with h' | h'
+      · rcases List.mem_cons.mp h' with rfl | h''
+        · exact Or.inr (done_set_self hpost.good hg)
+        · exact Or.inl h''
+      · exact Or.inr (done_set hpost.good hg h')
+    · intro sc
+      rw [inherit]
+      cases hu : unshiftAll b (expOf st0 b) sc.kids <;> rw [hexp] at hu <;>
+        simp [hut, hutobj, hm, hproc, full, hu]
+
+theorem inheritAll_run (h : WFS st0) (d : Nat) (ih : ∀ m, m ≤ d → MainStmt st0 m) (rs2 : List Nat) :
+    ∀ (rs1 : List Nat) (fuel : Nat) (st : Store) (memo : List Nat) (sc : Schema),
+      Good st0 st → MemoOK st0 (d + 1) st memo →
+      (∀ b ∈ rs1, depthOk st0 (d + 1) b = true ∧ ∃ ut, st0.get? b = some ut ∧ ut.isObject = true) →
+      cost st0.length d + 1 + rs1.length ≤ fuel →
+      ∃ st' memo', Post st0 st memo st' memo' ∧
+        inheritAll fuel st memo sc (rs1 ++ rs2) =
+          match unshiftMany st0 rs1 sc.kids with
+          | .error e => .error e
+          | .ok k => inheritAll (fuel - rs1.length) st' memo' { sc with kids := k } rs2 := by
+  intro rs1
+  induction rs1 with
+  | nil =>
+    intro fuel st memo sc hgood _ _ _
+    exact ⟨st, memo, Post.refl hgood, by simp [unshiftMany]⟩
+  | cons b rest ihl =>
+    intro fuel st memo sc hgood hmemo hbs hfuel
+    obtain ⟨f, rfl⟩ : ∃ f, fuel = f + 1 := ⟨fuel - 1, by simp at hfuel; omega⟩
+    simp only [List.length_cons] at hfuel
+    rcases (hbs b (by simp)).2 with ⟨ut0, hg, hobj⟩
+    rcases inherit_step h d ih f st memo b ut0 hgood hmemo (hbs b (by simp)).1 hg hobj (by omega)
+      with ⟨st1, memo1, hpost1, hinh⟩
+    rw [List.cons_append, inheritAll, hinh sc]
+    cases hu : unshiftAll b (expOf st0 b) sc.kids with
+    | error e => exact ⟨st1, memo1, hpost1, by simp [unshiftMany, hu]⟩
+    | ok k =>
+      rcases ihl f st1 memo1 { sc with kids := k } hpost1.good (hmemo.post hpost1)
+        (fun b' hb' => hbs b' (by simp [hb'])) (by omega) with ⟨st2, memo2, hpost2, hrun⟩
+      refine ⟨st2, memo2, hpost1.trans hpost2, ?_⟩
+      simp only [unshiftMany, hu, hrun, List.length_cons, Nat.add_sub_add_right]
+
+theorem main (h : WFS st0) : ∀ d, MainStmt st0 d := by
+  intro d
+  induction d using Nat.strongRecOn with
+  | _ d ih =>
+    intro fuel st memo sc own hgood hmemo hobj hbases hlen hfuel hstate
+    cases d with
+    | zero =>
+      have hnil : sc.bases = [] :=
+        List.eq_nil_iff_forall_not_mem.mpr (fun b hb => by simpa [depthOk] using (hbases b hb).1)
+      obtain ⟨f, rfl⟩ : ∃ f, fuel = f + 1 := ⟨fuel - 1, by simp [cost] at hfuel; omega⟩
+      have hk : sc.kids = inh st0 sc.bases ++ own := by
+        rcases hstate with h' | h'
+        · simp [hnil, h'.1]
+        · exact h'
+      refine ⟨st, memo, ?_, Post.refl hgood⟩
+      have hp : process (f + 1) st memo sc = .ok (st, memo, sc) := by
+        rw [process]; simp [hobj, hnil, inheritAll]
+      rw [hp, ← hk]
+    | succ d =>
+      obtain ⟨f, rfl⟩ : ∃ f, fuel = f + 1 := ⟨fuel - 1, by simp [cost] at hfuel; omega⟩
+      simp only [cost] at hfuel
+      rcases inheritAll_run h d (fun m hm => ih m (by omega)) [] sc.bases.reverse f st memo sc hgood hmemo
+        (fun b hb => hbases b (by simpa using hb)) (by simp; omega) with ⟨st', memo', hpost, hrun⟩
+      have hpure : unshiftMany st0 sc.bases.reverse sc.kids = .ok (inh st0 sc.bases ++ own) := by
+        rcases hstate with ⟨hk, hnd⟩ | hk
+        · have := unshiftMany_fresh (st0 := st0) sc.bases.reverse sc.kids (by simpa [hk] using hnd)
+          simpa [hk] using this
+        · have := unshiftMany_done (st0 := st0) sc.bases.reverse sc.kids
+            (by rw [hk]; exact fun b hb => done_state sc.bases own b (by simpa using hb))
+          rw [this, hk]
+      refine ⟨st', memo', ?_, hpost⟩
+      have hp : process (f + 1) st memo sc = inheritAll f st memo sc sc.bases.reverse := by
+        rw [process]; simp [hobj]
+      rw [hp, ← List.append_nil sc.bases.reverse, hrun, hpure]
+      simp [inheritAll]
+
+
+/-! ### Top level: store types, outside schemas, `processStore` -/
+
+theorem wfs_depth (h : WFS st0) {b : Nat} {ut : Schema} (hg : st0.get? b = some ut) (d : Nat)
+    (hd : st0.length ≤ d) : depthOk st0 d b = true :=
+  depthOk_mono st0 hd b (h.acyclic b ut hg)
+
+theorem memoOK_of_done {st : Store} {memo : List Nat} (hm : ∀ n ∈ memo, Done st0 st n) (d : Nat) :
+    MemoOK st0 d st memo := fun n hn => Or.inl (hm n hn)
+
+theorem done_of_post {st st' : Store} {memo memo' : List Nat} (hm : ∀ n ∈ memo, Done st0 st n)
+    (hp : Post st0 st memo st' memo') : ∀ n ∈ memo', Done st0 st' n := by
+  intro n hn
+  rcases hp.memo n hn with h | h
+  · exact hp.mono n (hm n h)
+  · exact h
+
+/-- (re-)processing a type of the store, whatever its state: the result is its expansion -/
+theorem process_store_type (h : WFS st0) (fuel : Nat) (st : Store) (memo : List Nat) (n : Nat) (sc0 sc : Schema)
+    (hgood : Good st0 st) (hmemo : ∀ n ∈ memo, Done st0 st n)
+    (hg0 : st0.get? n = some sc0) (hg : st.get? n = some sc) (hfuel : cost st0.length st0.length ≤ fuel) :
+    ∃ st' memo', process fuel st memo sc = .ok (st', memo', full st0 sc0) ∧ Post st0 st memo st' memo' := by
+  rcases good_get hgood hg0 with ⟨ut, hut, hcase⟩
+  rw [hg] at hut
+  have hsc : sc = ut := by injection hut
+  subst hsc
+  by_cases hobj : sc0.isObject = true
+  · have hscobj : sc.isObject = true := by rcases hcase with rfl | rfl <;> simp [full, hobj]
+    have hscb : sc.bases = sc0.bases := by rcases hcase with rfl | rfl <;> rfl
+    have hstate : (sc.kids = sc0.kids ∧ (keys (inh st0 sc.bases ++ sc0.kids)).Nodup) ∨
+        sc.kids = inh st0 sc.bases ++ sc0.kids := by
+      rcases hcase with rfl | rfl
+      · left; refine ⟨rfl, ?_⟩
+        rw [← expand_unfold h hg0]; exact h.once n _ hg0
+      · right; show expand st0 st0.length sc0 = _
+        exact expand_unfold h hg0
+    rcases main h st0.length fuel st memo sc sc0.kids hgood (memoOK_of_done hmemo _) hscobj
+      (by rw [hscb]; intro b hb
+          rcases h.bases n sc0 hg0 b hb with ⟨ut, hu, ho⟩
+          exact ⟨wfs_depth h hu _ (Nat.le_refl _), ut, hu, ho⟩)
+      (by rw [hscb]; exact h.nbases n sc0 hg0) hfuel hstate with ⟨st', memo', hproc, hpost⟩
+    have hres : ({ sc with kids := inh st0 sc.bases ++ sc0.kids } : Schema) = full st0 sc0 := by
+      rw [full_eq h hg0]; rcases hcase with rfl | rfl <;> rfl
+    rw [hres] at hproc
+    exact ⟨st', memo', hproc, hpost⟩
+  · have hobj' : sc0.isObject = false := by simpa using hobj
+    have hnil := h.obj n sc0 hg0 hobj'
+    have hfull : full st0 sc0 = sc0 := by
+      unfold full; rw [expand_no_bases st0 _ sc0 hnil]
+    have hsc : sc = sc0 := by rcases hcase with rfl | rfl <;> simp [hfull]
+    subst hsc
+    obtain ⟨f, rfl⟩ : ∃ f, fuel = f + 1 :=
+      ⟨fuel - 1, by have := cost_eq st0.length st0.length; omega⟩
+    refine ⟨st, memo, ?_, Post.refl hgood⟩
+    rw [process, hfull]; simp [hobj']
+
+/-- a schema outside the store that names bases of the store -/
+theorem process_ext (h : WFS st0) (fuel : Nat) (st : Store) (memo : List Nat) (sc : Schema)
+    (hgood : Good st0 st) (hmemo : ∀ n ∈ memo, Done st0 st n) (hobj : sc.isObject = true)
+    (hbases : ∀ b ∈ sc.bases, ∃ ut, st0.get? b = some ut ∧ ut.isObject = true)
+    (hlen : sc.bases.length ≤ st0.length)
+    (hnd : (keys (expand st0 (st0.length + 1) sc)).Nodup)
+    (hfuel : cost st0.length st0.length ≤ fuel) :
+    ∃ st' memo', process fuel st memo sc = .ok (st', memo', { sc with kids := expand st0 (st0.length + 1) sc }) ∧
+      Post st0 st memo st' memo' := by
+  rw [expand_succ_inh] at hnd ⊢
+  exact main h st0.length fuel st memo sc sc.kids hgood (memoOK_of_done hmemo _) hobj
+    (fun b hb => by
+      rcases hbases b hb with ⟨ut, hu, ho⟩
+      exact ⟨wfs_depth h hu _ (Nat.le_refl _), ut, hu, ho⟩)
+    hlen hfuel (Or.inl ⟨rfl, hnd⟩)
+
+theorem processStore_run (h : WFS st0) (fuel : Nat) (hfuel : cost st0.length st0.length ≤ fuel) :
+    ∀ (order : List Nat) (st : Store) (memo : List Nat), Good st0 st → (∀ n ∈ memo, Done st0 st n) →
+    ∃ st' memo', processStore fuel order st memo = .ok (st', memo') ∧ Post st0 st memo st' memo' ∧
+      (∀ n ∈ memo', Done st0 st' n) ∧ ∀ n ∈ order, Done st0 st' n := by
+  intro order
+  induction order with
+  | nil =>
+    intro st memo hgood hmemo
+    exact ⟨st, memo, rfl, Post.refl hgood, hmemo, by simp⟩
+  | cons n rest ih =>
+    intro st memo hgood hmemo
+    cases hg : st.get? n with
+    | none =>
+      rcases ih st memo hgood hmemo with ⟨st', memo', hrun, hpost, hm', hall⟩
+      refine ⟨st', memo', by simp [processStore, hg, hrun], hpost, hm', ?_⟩
+      intro n' hn'
+      rcases List.mem_cons.mp hn' with rfl | hn'
+      · have h0 : st0.get? n' = none := (good_none hgood).mp hg
+        unfold Done
+        rw [h0, (good_none hpost.good).mpr h0]; rfl
+      · exact hall n' hn'
+    | some sc =>
+      cases hg0 : st0.get? n with
+      | none => rw [(good_none hgood).mpr hg0] at hg; cases hg
+      | some sc0 =>
+        rcases process_store_type h fuel st memo n sc0 sc hgood hmemo hg0 hg hfuel with ⟨st1, memo1, hproc, hpost1⟩
+        have hpost1' : Post st0 st memo (st1.set n (full st0 sc0)) memo1 := by
+          refine ⟨good_set hpost1.good hg0, fun m hm => done_set hpost1.good hg0 (hpost1.mono m hm), ?_⟩
+          intro m hm
+          rcases hpost1.memo m hm with h' | h'
+          · exact Or.inl h'
+          · exact Or.inr (done_set hpost1.good hg0 h')
+        rcases ih (st1.set n (full st0 sc0)) memo1 hpost1'.good (done_of_post hmemo hpost1')
+          with ⟨st', memo', hrun, hpost, hm', hall⟩
+        refine ⟨st', memo', by simp [processStore, hg, hproc, hrun], hpost1'.trans hpost, hm', ?_⟩
+        intro n' hn'
+        rcases List.mem_cons.mp hn' with rfl | hn'
+        · exact hpost.mono _ (done_set_self hpost1.good hg0)
+        · exact hall n' hn'
+
+/-! ### Rejections: the bases written after `b` are inherited, then `b` is looked at -/
+
+theorem process_upto (h : WFS st0) (fuel : Nat) (st : Store) (memo : List Nat) (sc : Schema)
+    (pre : List Nat) (b : Nat) (post : List Nat)
+    (hgood : Good st0 st) (hmemo : ∀ n ∈ memo, Done st0 st n) (hobj : sc.isObject = true)
+    (hb : sc.bases = pre ++ b :: post)
+    (hpost : ∀ b' ∈ post, ∃ ut, st0.get? b' = some ut ∧ ut.isObject = true)
+    (hnd : (keys (inh st0 post ++ sc.kids)).Nodup)
+    (hfuel : cost st0.length st0.length + post.length + 4 ≤ fuel) :
+    ∃ st' memo' f', Post st0 st memo st' memo' ∧ cost st0.length st0.length + 2 ≤ f' ∧
+      process fuel st memo sc =
+        inheritAll f' st' memo' { sc with kids := inh st0 post ++ sc.kids } (b :: pre.reverse) := by
+  obtain ⟨f, rfl⟩ : ∃ f, fuel = f + 1 := ⟨fuel - 1, by omega⟩
+  have hp : process (f + 1) st memo sc = inheritAll f st memo sc sc.bases.reverse := by
+    rw [process]; simp [hobj]
+  have hrev : sc.bases.reverse = post.reverse ++ (b :: pre.reverse) := by simp [hb]
+  rcases inheritAll_run h st0.length (fun m _ => main h m) (b :: pre.reverse) post.reverse f st memo sc hgood
+    (memoOK_of_done hmemo _)
+    (fun b' hb' => by
+      rcases hpost b' (by simpa using hb') with ⟨ut, hu, ho⟩
+      exact ⟨wfs_depth h hu _ (by omega), ut, hu, ho⟩)
+    (by simp; omega) with ⟨st', memo', hpost', hrun⟩
+  have hpure := unshiftMany_fresh (st0 := st0) post.reverse sc.kids (by simpa using hnd)
+  simp only [List.reverse_reverse] at hpure
+  refine ⟨st', memo', f - post.reverse.length, hpost', by simp; omega, ?_⟩
+  rw [hp, hrev, hrun, hpure]
+
+theorem inheritAll_notFound (st : Store) (memo : List Nat) (sc : Schema) (b : Nat) (rest : List Nat) (f : Nat)
+    (hf : 2 ≤ f) (hg : st.get? b = none) : inheritAll f st memo sc (b :: rest) = .error (.notFound b) := by
+  obtain ⟨f, rfl⟩ : ∃ f', f = f' + 2 := ⟨f - 2, by omega⟩
+  rw [inheritAll, inherit]; simp [hg]
+
+theorem inheritAll_notObject (st : Store) (memo : List Nat) (sc : Schema) (b : Nat) (rest : List Nat) (f : Nat)
+    (ut : Schema) (hf : 2 ≤ f) (hg : st.get? b = some ut) (ho : ut.isObject = false) :
+    inheritAll f st memo sc (b :: rest) = .error (.notObject b) := by
+  obtain ⟨f, rfl⟩ : ∃ f', f = f' + 2 := ⟨f - 2, by omega⟩
+  rw [inheritAll, inherit]; simp [hg, ho]
+
+theorem inheritAll_override (h : WFS st0) (st : Store) (memo : List Nat) (sc : Schema) (b : Nat) (rest : List Nat)
+    (f : Nat) (ut0 : Schema) (v p : Prpty)
+    (hgood : Good st0 st) (hmemo : ∀ n ∈ memo, Done st0 st n)
+    (hf : cost st0.length st0.length + 2 ≤ f) (hg : st0.get? b = some ut0) (ho : ut0.isObject = true)
+    (hv : v ∈ expand st0 st0.length ut0) (hfind : sc.kids.find? (·.key == v.key) = some p) (hp : p.from_ = none) :
+    ∃ k, inheritAll f st memo sc (b :: rest) = .error (.override k b) ∧ k ∈ keys (expand st0 st0.length ut0) ∧
+      ∃ p, sc.kids.find? (·.key == k) = some p ∧ p.from_ = none := by
+  obtain ⟨f, rfl⟩ : ∃ f', f = f' + 1 := ⟨f - 1, by omega⟩
+  rcases inherit_step h st0.length (fun m _ => main h m) f st memo b ut0 hgood (memoOK_of_done hmemo _)
+    (wfs_depth h hg _ (by omega)) hg ho (by omega) with ⟨st', memo', _, hinh⟩
+  have hexp : expOf st0 b = expand st0 st0.length ut0 := by simp [expOf, hg]
+  rcases unshiftAll_clash b (expOf st0 b) sc.kids v p (by rw [hexp]; exact hv) hfind hp with ⟨k, hk, hkv, hkp⟩
+  refine ⟨k, ?_, by rw [← hexp]; exact hkv, hkp⟩
+  rw [inheritAll, hinh sc, hk]
+
+end Main
+
+/-! ### From the plain conditions to `WFS`: lineages and keys -/
+
+theorem lineage_self (st : Store) (f n : Nat) : n ∈ lineage st f n := by
+  cases f <;> simp [lineage]
+
+theorem lineage_none {st : Store} {b : Nat} (hg : st.get? b = none) (f : Nat) : lineage st f b = [b] := by
+  cases f <;> simp [lineage, hg]
+
+theorem lineage_succ {st : Store} {n : Nat} {sc : Schema} (hg : st.get? n = some sc) (f : Nat) :
+    lineage st (f + 1) n = sc.bases.flatMap (lineage st f) ++ [n] := by
+  simp [lineage, hg]
+
+theorem ownKeys_none {st : Store} {b : Nat} (hg : st.get? b = none) : ownKeys st b = [] := by
+  simp [ownKeys, hg]
+
+theorem ownKeys_some {st : Store} {b : Nat} {sc : Schema} (hg : st.get? b = some sc) :
+    ownKeys st b = keys sc.kids := by
+  simp [ownKeys, hg]
+
+/-- the keys of an expansion are the own keys along the lineage -/
+theorem keys_expand (st : Store) : ∀ (f n : Nat) (sc : Schema), st.get? n = some sc →
+    keys (expand st f sc) = (lineage st f n).flatMap (ownKeys st) := by
+  intro f
+  induction f with
+  | zero => intro n sc hg; simp [expand, lineage, ownKeys_some hg]
+  | succ f ih =>
+    intro n sc hg
+    rw [expand_succ, lineage_succ hg, keys_append, List.flatMap_append, List.flatMap_assoc]
+    simp only [List.flatMap_cons, List.flatMap_nil, List.append_nil, ownKeys_some hg]
+    congr 1
+    unfold keys
+    rw [List.map_flatMap]
+    apply flatMap_congr'
+    intro b _
+    cases hb : st.get? b with
+    | none => simp [lineage_none hb, ownKeys_none hb]
+    | some ut =>
+      have := ih b ut hb
+      simp only [keys] at this
+      simp [← this, mark, Function.comp_def]
+
+theorem keys_expOf (st : Store) (b : Nat) :
+    keys (expOf st b) = (lineage st st.length b).flatMap (ownKeys st) := by
+  unfold expOf
+  cases hb : st.get? b with
+  | none => simp [lineage_none hb, ownKeys_none hb]
+  | some ut => exact keys_expand st _ b ut hb
+
+theorem keys_inh (st : Store) (bs : List Nat) :
+    keys (inh st bs) = (bs.flatMap (lineage st st.length)).flatMap (ownKeys st) := by
+  unfold inh keys
+  rw [List.map_flatMap, List.flatMap_assoc]
+  apply flatMap_congr'
+  intro b _
+  have := keys_expOf st b
+  simp only [keys] at this
+  simp [← this, mark, Function.comp_def]
+
+theorem flatMap_nodup_each {α β} (g : α → List β) : ∀ (l : List α), (l.flatMap g).Nodup → ∀ p ∈ l, (g p).Nodup := by
+  intro l
+  induction l with
+  | nil => intro _ p hp; simp at hp
+  | cons a l ih =>
+    intro h p hp
+    rw [List.flatMap_cons, List.nodup_append] at h
+    rcases List.mem_cons.mp hp with rfl | hp
+    · exact h.1
+    · exact ih h.2.1 p hp
+
+theorem flatMap_nodup_owner {α β} (g : α → List β) : ∀ (l : List α), (l.flatMap g).Nodup →
+    ∀ p ∈ l, ∀ q ∈ l, ∀ k, k ∈ g p → k ∈ g q → p = q := by
+  intro l
+  induction l with
+  | nil => intro _ p hp; simp at hp
+  | cons a l ih =>
+    intro h p hp q hq k hkp hkq
+    rw [List.flatMap_cons, List.nodup_append] at h
+    rcases List.mem_cons.mp hp with hpa | hpl
+    · rcases List.mem_cons.mp hq with hqa | hql
+      · rw [hpa, hqa]
+      · rw [hpa] at hkp
+        exact absurd rfl (h.2.2 k hkp k (List.mem_flatMap.mpr ⟨q, hql, hkq⟩))
+    · rcases List.mem_cons.mp hq with hqa | hql
+      · rw [hqa] at hkq
+        exact absurd rfl (h.2.2 k hkq k (List.mem_flatMap.mpr ⟨p, hpl, hkp⟩))
+      · exact ih h.2.1 p hpl q hql k hkp hkq
+
+/-- a duplicate-free list of type names has duplicate-free keys, if keys are unique across the store -/
+theorem nodup_flatMap_ownKeys (st : Store) (hk : (st.flatMap fun p => keys p.2.kids).Nodup) :
+    ∀ (l : List Nat), l.Nodup → (l.flatMap (ownKeys st)).Nodup := by
+  intro l
+  induction l with
+  | nil => intro _; simp
+  | cons a l ih =>
+    intro hnd
+    rw [List.nodup_cons] at hnd
+    rw [List.flatMap_cons, List.nodup_append]
+    refine ⟨?_, ih hnd.2, ?_⟩
+    · cases ha : st.get? a with
+      | none => simp [ownKeys_none ha]
+      | some sc =>
+        rw [ownKeys_some ha]
+        exact flatMap_nodup_each (fun p : Nat × Schema => keys p.2.kids) st hk (a, sc) (get?_mem ha)
+    · intro k hka k' hkl hkk
+      subst hkk
+      rcases List.mem_flatMap.mp hkl with ⟨a', ha', hka'⟩
+      cases ha : st.get? a with
+      | none => simp [ownKeys_none ha] at hka
+      | some sc =>
+        cases hb : st.get? a' with
+        | none => simp [ownKeys_none hb] at hka'
+        | some sc' =>
+          rw [ownKeys_some ha] at hka
+          rw [ownKeys_some hb] at hka'
+          have := flatMap_nodup_owner (fun p : Nat × Schema => keys p.2.kids) st hk (a, sc) (get?_mem ha)
+            (a', sc') (get?_mem hb) k hka hka'
+          have haa : a = a' := congrArg Prod.fst this
+          subst haa
+          exact hnd.1 ha'
+
+theorem mem_ownKeys_store {st : Store} {a k : Nat} (h : k ∈ ownKeys st a) :
+    k ∈ st.flatMap fun p => keys p.2.kids := by
+  cases ha : st.get? a with
+  | none => simp [ownKeys_none ha] at h
+  | some sc =>
+    rw [ownKeys_some ha] at h
+    exact List.mem_flatMap.mpr ⟨(a, sc), get?_mem ha, h⟩
+
+/-- bases are pairwise different when the lineages are disjoint -/
+theorem nodup_of_flatMap_lineage (st : Store) (f : Nat) : ∀ (bs : List Nat),
+    (bs.flatMap (lineage st f)).Nodup → bs.Nodup := by
+  intro bs
+  induction bs with
+  | nil => intro _; simp
+  | cons a l ih =>
+    intro h
+    rw [List.flatMap_cons, List.nodup_append] at h
+    rw [List.nodup_cons]
+    refine ⟨?_, ih h.2.1⟩
+    intro ha
+    exact h.2.2 a (lineage_self st f a) a (List.mem_flatMap.mpr ⟨a, ha, lineage_self st f a⟩) rfl
 
 end JSight.C12
